@@ -249,6 +249,21 @@ func blsCase[K bls.KeyGroup](g blsGroup, k, mi int) {
 		} else {
 			lib.Count("uncompressed-sig-rejected")
 		}
+		// ... but every *alteration* of that second encoding (one flag or
+		// coordinate bit, a truncation, appended bytes) is not a valid
+		// signature on this message
+		if mi == 0 {
+			tgu := &target{subject: g.name, entry: "Verify(uncompressed)", mon: monBLS, detail: det,
+				verify: func(x []byte) bool { return bls.Verify(pub, msg, x) }}
+			for i := 0; i < 8; i++ {
+				tgu.expectReject("uncompressed-flag-flip", lib.FlipBit(u, i), "bit", i)
+			}
+			half := len(u) / 2
+			for i := 0; i < 8; i++ {
+				tgu.expectReject("uncompressed-y-top-bits", lib.FlipBit(u, half*8+i), "bit", half*8+i)
+			}
+			alterSig(tgu, r, u, altOpts{flips: 64, allFlips: full && lib.Thorough()})
+		}
 	}
 
 	tgk := &target{subject: g.name, entry: "Verify", mon: monBLS, detail: det,
